@@ -80,6 +80,7 @@ func runOne(wp **World, prop string, f ruleFunc, tier string, seed int64, repo, 
 	}()
 	if *wp == nil {
 		*wp = loadWorld(repo, tags, goarch)
+		curWorld = *wp
 	}
 	w := *wp
 	r := newReport(prop, tier, seed)
